@@ -774,12 +774,16 @@ func MainC17(args []string) int {
 		sc    *Scenario
 		delay time.Duration
 		tx    bool
+		rate  float64
 	}
 	var cfgs []cfg
 	for i := 0; i < *n; i++ {
 		sc := GenScenario(rng, i+1, 1+rng.Intn(2), rng.Intn(2), map[string]int{"+": 1}, false)
 		sc.Sched, sc.Seg = "free", []string{"all", "rand"}[rng.Intn(2)]
 		c := cfg{sc: sc, tx: (i/4)%2 == 0}
+		if c.tx {
+			c.rate = []float64{1500, 300}[(i/8)%2] // a fast and a slow modem
+		}
 		switch i % 4 {
 		case 0: // no delay, small messages
 		case 1: // one medium message, several ticks inside the transfer
@@ -793,6 +797,9 @@ func MainC17(args []string) int {
 			c.delay = 300 * time.Millisecond
 		case 3: // a large message with a small delay: many chunks, a few ticks
 			sc.Msgs["A"][0].Size = "large"
+			if c.tx {
+				sc.Msgs["A"][0].Size = "medium" // the modem-like transmit buffer drains slowly: a large message takes minutes
+			}
 			sc.Msgs["A"] = sc.Msgs["A"][:1]
 			sc.Msgs["B"] = nil
 			c.delay = 500 * time.Microsecond
@@ -800,6 +807,8 @@ func MainC17(args []string) int {
 		cfgs = append(cfgs, c)
 	}
 	results := make([][]rec.Event, len(cfgs))
+	timedOut := make([]bool, len(cfgs))
+	Watchdog = 180 * time.Second // race detector build, paced links, parallel sessions: a slow session is not this property's subject
 	var wg sync.WaitGroup
 	ch := make(chan int)
 	for w := 0; w < *workers; w++ {
@@ -811,8 +820,35 @@ func MainC17(args []string) int {
 				r := &Recorder{}
 				st := Setup(c.sc, r)
 				upd := map[string]fbb.StatusUpdater{"A": statusRec{"A", r}, "B": statusRec{"B", r}}
-				RunSessionOpts(c.sc, st, r, func(l *Link) { l.WriteDelay = c.delay }, upd, c.tx)
-				time.Sleep(600 * time.Millisecond) // the final reports are delivered by goroutines that may outlive Exchange
+				t0 := time.Now()
+				res := RunSessionOpts(c.sc, st, r, func(l *Link) { l.WriteDelay = c.delay }, upd, c.rate)
+				timedOut[i] = res.TimedOut
+				if os.Getenv("VERIF_DEBUG") != "" {
+					fmt.Fprintf(os.Stderr, "c17 session %d delay=%v tx=%v took %v timedout=%v\n", i, c.delay, c.tx, time.Since(t0), res.TimedOut)
+				}
+				// the final reports are delivered by goroutines that may outlive Exchange: wait until every transferred message
+				// has its Done report on both sides (at most 5 s), then 400 ms more for reports that should not come
+				for dl := time.Now().Add(5 * time.Second); time.Now().Before(dl); time.Sleep(50 * time.Millisecond) {
+					need, have := map[string]bool{}, map[string]bool{}
+					for _, e := range r.Events() {
+						switch {
+						case e["op"] == "SetSent" && e["rej"] == false:
+							need[e["s"].(string)+"/send/"+e["m"].(string)] = true
+						case e["op"] == "Store" && e["err"] == false:
+							need[e["s"].(string)+"/recv/"+e["m"].(string)] = true
+						case e["op"] == "Status" && e["done"] == true:
+							have[e["side"].(string)+"/"+e["dir"].(string)+"/"+e["mid"].(string)] = true
+						}
+					}
+					all := true
+					for k := range need {
+						all = all && have[k]
+					}
+					if all {
+						break
+					}
+				}
+				time.Sleep(400 * time.Millisecond)
 				evs := r.Events()
 				// project: wire csize per MID, transferred messages per side
 				csize := map[string]int{}
@@ -866,7 +902,7 @@ func MainC17(args []string) int {
 	defer w.Close()
 	reports, mid := 0, 0
 	for i, evs := range results {
-		w.Write(map[string]interface{}{"delay_ms": int(cfgs[i].delay / time.Millisecond), "tx": cfgs[i].tx}, evs)
+		w.Write(map[string]interface{}{"delay_ms": int(cfgs[i].delay / time.Millisecond), "tx": cfgs[i].tx, "txrate": int(cfgs[i].rate), "timedout": timedOut[i]}, evs)
 		for _, e := range evs {
 			if e["op"] == "Status" {
 				reports++
